@@ -45,6 +45,7 @@ class Gen:
         self.readonly: set[int] = set()
         self.scopes: list = []
         self.last_L = None
+        self.last_backward = {}
         # views carried over from an earlier epoch (graph cleared, base lingering until their next use as an operand).  They are
         # never the TERMINAL of a backward(): MyGrad stores the seed on such a tensor but `.grad` - which, for a tensor with a
         # base, is derived from the base - does not show it (observed; DESIGN 7.2)
@@ -185,6 +186,12 @@ class Gen:
             raise GenSkip()
         return s["h"]
 
+    def rand_mask(self, sh):
+        """A boolean mask broadcastable to sh (for `where=` without `out=`)."""
+        bsh = list(sh) if self.rng.random() < 0.6 else self.sub_broadcast_shape(sh)
+        n = int(np.prod(bsh)) if bsh else 1
+        return {"sh": list(bsh), "v": [self.rng.random() < 0.6 for _ in range(n)]}
+
     def operand_like(self, sh, allow_handle=True):
         """An operand broadcast-compatible with shape sh: existing handle, scalar, const array or new leaf."""
         r = self.rng
@@ -321,6 +328,8 @@ class Gen:
                         return False
                 except ValueError:
                     return False
+            if f != "divide" and r.random() < self.p.get("p_where_mask", 0.0):
+                s["wm"] = self.rand_mask(list(np.broadcast_shapes(*[np.shape(x) for x in xs])))
         elif fam == "un":
             f = r.choice(["negative", "square", "abs", "positive", "reciprocal", "relu"])
             if self.lowprec and f == "reciprocal":
@@ -331,6 +340,8 @@ class Gen:
                 return False  # integer reciprocal truncates: outside the exact (rational) fragment
             s = {"k": "op", "h": h, "f": f, "a": [{"h": a}]}
             ops = s["a"]
+            if f in ("negative", "square", "abs", "positive") and r.random() < self.p.get("p_where_mask", 0.0):
+                s["wm"] = self.rand_mask(sh)
         elif fam == "power":
             pw = r.choice([2, 3, -1, 0, 1, -2])
             if pw < 0 and np.any(A == 0):
@@ -1065,7 +1076,11 @@ def gen_program(seed: int, profile: dict) -> list[dict]:
                 if g.last_L in g.np.H and not g.isview.get(g.last_L) and rng.random() < profile.get("p_repeat_L", 0.0):
                     L = g.last_L             # the terminal of the previous epoch once more
                 elif rng.random() < profile.get("p_nonscalar_L", 0.0):
-                    L = g.pick(lambda h: not g.const[h] and g.arr(h).size > 0 and h not in g.disconnected and h not in g.stale)
+                    ok_L = lambda h: not g.const[h] and g.arr(h).size > 0 and h not in g.disconnected and h not in g.stale  # noqa: E731
+                    # (half of the time: a tensor that owns memory other live tensors view - its views' gradients follow its own)
+                    owners = [h for h in g.live() if ok_L(h) and not g.isview.get(h) and any(
+                        q != h and g.isview.get(q) and np.shares_memory(g.arr(q), g.arr(h)) for q in g.np.H)]
+                    L = rng.choice(owners) if owners and rng.random() < 0.5 else g.pick(ok_L)
                 else:
                     L = g.terminal()
                 if L is not None:
@@ -1081,16 +1096,25 @@ def gen_program(seed: int, profile: dict) -> list[dict]:
                 if L not in g.np.H:
                     continue
                 seed = kind = None
+                force_view = False
                 x = rng.random()
                 if x < profile.get("p_bad_seed", 0.0):
                     seed, kind = g.rand_seed(list(g.arr(L).shape), bad=True)
                 elif x < profile.get("p_bad_seed", 0.0) + profile.get("p_seed", 0.0):
                     seed, kind = g.rand_seed(list(g.arr(L).shape))
+                elif L == g.last_L and g.prog and g.last_backward.get("seed_view"):
+                    # the same terminal as last time, seeded again from the caller's buffer
+                    shL = list(g.arr(L).shape)
+                    seed, kind = {"arr": {"sh": shL, "v": [R(rng.choice([1, 2, -1, 3, -2])) for _ in range(int(np.prod(shL)) if shL else 1)]}}, None
+                    force_view = True
                 if rng.random() < profile.get("p_clear_instead", 0.0):
                     g.prog.append({"k": "clear", "h": L})
                 else:
                     g.backward(L, seed, kind)
+                    if force_view and "seed_order" not in g.prog[-1]:
+                        g.prog[-1]["seed_view"] = True
                     g.last_L = L
+                    g.last_backward = g.prog[-1]
                 g.end_epoch_drop_views()
                 if profile.get("editgrad") and rng.random() < 0.6:
                     t = g.pick(lambda h: g.arr(h).size > 0)
@@ -1101,17 +1125,17 @@ def gen_program(seed: int, profile: dict) -> list[dict]:
 
 
 PROFILES = {
-    "c01": dict(functional=["bin", "bin", "un", "power", "red", "red", "matmul", "where", "join", "gathercopy",
+    "c01": dict(p_where_mask=0.12, functional=["bin", "bin", "un", "power", "red", "red", "matmul", "where", "join", "gathercopy",
                             "act", "cum", "seq", "einsum", "conv", "pool", "loss"], p_hd_operand=0.06,
                 w_func=0.75, w_view=0.25, w_inplace=0.0, max_leaves=3, max_steps=8, p_const_leaf=0.2, p_forder_leaf=0.2),
     # C02: short programs (one to three operations) ended by backward with a non-trivial seed: every operation's VJP on
     # random shapes / broadcasts / options, beyond the fixed cells of OpTable.tla
-    "c02": dict(functional=["bin", "bin", "un", "power", "red", "red", "matmul", "where", "join", "gathercopy",
+    "c02": dict(p_where_mask=0.12, functional=["bin", "bin", "un", "power", "red", "red", "matmul", "where", "join", "gathercopy",
                             "act", "cum", "seq", "einsum", "einsum", "conv", "pool", "loss"], p_hd_operand=0.06,
                 w_func=0.8, w_view=0.2, w_inplace=0.0, max_leaves=3, max_steps=3, p_const_leaf=0.15, p_seed=0.8,
                 p_nonscalar_L=0.9, p_forder_leaf=0.15),
     # C03: forward agreement with NumPy in value, shape and dtype along whole programs with integer / float32 / float16 leaves
-    "c03": dict(functional=["bin", "bin", "un", "power", "red", "red", "matmul", "where", "join", "gathercopy", "act", "cum", "seq",
+    "c03": dict(p_where_mask=0.12, functional=["bin", "bin", "un", "power", "red", "red", "matmul", "where", "join", "gathercopy", "act", "cum", "seq",
                             "einsum", "pool"],
                 w_func=0.65, w_view=0.25, w_inplace=0.1, max_leaves=3, max_steps=8, p_const_leaf=0.3, p_int_leaf=0.3, p_f32_leaf=0.3,
                 backward=False, p_forder_leaf=0.1),
@@ -1122,7 +1146,7 @@ PROFILES = {
                 max_leaves=2, max_steps=8, p_const_leaf=0.15, w_misc=0.08, misc=["fail"]),
     "c06": dict(p_forder_leaf=0.25, functional=["bin", "un", "red"], w_func=0.4, w_view=0.6, w_inplace=0.0, max_leaves=2, max_steps=7,
                 p_const_leaf=0.0, w_misc=0.08, misc=["copy"], max_epochs=3, p_keep_stale=0.5, p_reuse_stale=0.7,
-                p_seed=0.45, p_nonscalar_L=0.4, p_repeat_L=0.5, p_seed_view=0.6),
+                p_seed=0.55, p_nonscalar_L=0.45, p_repeat_L=0.7, p_seed_view=0.75),
     "c09": dict(functional=["bin", "bin", "un", "red", "matmul"], w_func=0.5, w_view=0.25, w_inplace=0.25, max_leaves=2,
                 max_steps=5, max_epochs=2, max_terminals=3, between_steps=3, p_const_leaf=0.15, w_misc=0.1,
                 misc=["clear", "nullgrad"], p_clear_instead=0.2, inplace=["setitem", "setitem", "aug", "uout", "setshape"]),
@@ -1130,14 +1154,14 @@ PROFILES = {
                 p_hd_operand=0.12, w_func=0.55,
                 w_view=0.25, w_inplace=0.2, max_leaves=3, max_steps=8, p_const_leaf=0.4, p_kw_const=0.3, p_int_leaf=0.2,
                 p_kw_const_out=0.3, p_kw_const_view=0.05),
-    "c12": dict(functional=["bin", "bin", "un", "power", "red", "matmul", "where", "join", "gathercopy",
+    "c12": dict(p_where_mask=0.12, functional=["bin", "bin", "un", "power", "red", "matmul", "where", "join", "gathercopy",
                             "act", "cum", "seq", "einsum", "conv", "pool", "loss"], w_func=0.6, p_forder_leaf=0.2,
                 w_view=0.25, w_inplace=0.15, max_leaves=3, max_steps=7, p_const_leaf=0.15, max_epochs=2, p_seed=0.5,
                 p_nonscalar_L=0.5, editgrad=True, w_misc=0.1, misc=["copy"]),
     "c13": dict(functional=["bin", "bin", "un", "red", "matmul", "gathercopy"], w_func=0.4, w_view=0.25, w_inplace=0.2,
                 max_leaves=2, max_steps=9, p_const_leaf=0.15, w_misc=0.3, misc=["fail"], max_epochs=3, p_bad_seed=0.1,
                 p_keep_stale=0.5, p_reuse_stale=0.7),
-    "c14": dict(functional=["bin", "bin", "un", "power", "red", "matmul", "where", "join", "gathercopy",
+    "c14": dict(p_where_mask=0.12, functional=["bin", "bin", "un", "power", "red", "matmul", "where", "join", "gathercopy",
                             "act", "cum", "seq", "einsum", "conv", "pool", "loss"], w_func=0.65,
                 w_view=0.25, w_inplace=0.1, max_leaves=3, max_steps=6, p_const_leaf=0.15, p_seed=0.55, p_bad_seed=0.15,
                 p_nonscalar_L=0.7, p_f32_leaf=0.35),
